@@ -135,7 +135,7 @@ contract('IOManager.connect',
              ('C05,C12', 'G.topen and G.session == old(G.session) + 1'),
              ('C05,C11', 'G.rpos >= 0 and G.rpos <= len(G.dev) and G.now >= old(G.now) and G.cpu >= old(G.cpu)'),
              ('C05', 'not isnone(rsa_keys) and len(val(rsa_keys)) > 0'),
-             ('C05', 'same(adb_info.transport_timeout_s, old(adb_info.transport_timeout_s))'),
+             ('C05,C11', 'same(adb_info.transport_timeout_s, old(adb_info.transport_timeout_s))'),
          ])},
          doc='CNXN, then per AUTH challenge one signature of the newest token with the next key, stop at the first CNXN; '
              'after all keys: callback once, first public key NUL-terminated, wait with auth_timeout_s')
